@@ -530,7 +530,7 @@ func main() {
 		}
 	}
 	cov["distinct_sets"] = setSizes
-	if hookMissing {
+	if hookMissing && usesHook[id] {
 		inconclusive = append(inconclusive, "the verif-tagged hook file does not compile against this tree: internal-state invariants were not evaluated (the API-level monitors were)")
 	}
 	cov["inconclusive"] = inconclusive
@@ -622,6 +622,9 @@ func main() {
 	}
 	fmt.Printf("HELD property=%s on everything observed\n", id)
 }
+
+// properties whose monitors call the internal-invariant hook
+var usesHook = map[string]bool{"C01": true, "C02": true, "C04": true, "C13": true}
 
 func oneLine(s string) string {
 	s = strings.ReplaceAll(s, "\n", " / ")
